@@ -824,6 +824,7 @@ type sessSample struct {
 	Strategy string     `json:"strategy,omitempty"`
 	Hist     [][]string `json:"histories"`
 	Switches int64      `json:"switches"`
+	Sched    []string   `json:"first_context_switches,omitempty"`
 }
 
 func runSessions(rc *RunCtx) {
@@ -913,6 +914,7 @@ func runSessions(rc *RunCtx) {
 		rc.faults["preempt"] += sched.switches
 		rc.ev.add(sched.trace.h)
 		sample.Switches = sched.switches
+		sample.Sched = sched.scheduleTrace()
 		if sched.switches > 0 {
 			rc.probe("runners_interleaved_at_statement_level")
 		}
